@@ -212,6 +212,7 @@ func (H) Run(c *core.RunCtx) {
 			n.finished++
 			totalFinished++
 			sim.Event("stage %d error", n.idx)
+			sim.Fault("stage-error")
 			return errors.New("stage failed")
 		case outPanic:
 			anyFailedStarted = true
@@ -219,6 +220,7 @@ func (H) Run(c *core.RunCtx) {
 			n.finished++
 			totalFinished++
 			sim.Event("stage %d panic", n.idx)
+			sim.Fault("stage-panic")
 			panic(fmt.Sprintf("stage %d panics", n.idx))
 		}
 		n.finished++
@@ -237,6 +239,7 @@ func (H) Run(c *core.RunCtx) {
 				anyFailedStarted = true
 				anyPanic = true
 				sim.Event("stage %d plan panic", n.idx)
+				sim.Fault("plan-panic")
 				panic(fmt.Sprintf("planning stage %d panics", n.idx))
 			}
 			return planOf(n, run)
